@@ -10,9 +10,6 @@ pub mod c06;
 pub mod c07;
 pub mod c08;
 pub mod c09;
-pub mod c19;
-pub mod c20;
-pub mod search_common;
 pub mod c10;
 pub mod c11;
 pub mod c12;
@@ -22,6 +19,9 @@ pub mod c15;
 pub mod c16;
 pub mod c17;
 pub mod c18;
+pub mod c19;
+pub mod c20;
+pub mod search_common;
 
 pub fn run(id: &str, tier: Tier) -> i32 {
     match id {
